@@ -18,7 +18,8 @@
      DetachedServer.handle_system_error + handle_error(str) . [sys_error]
      AttachedServer.handle_disconnect ........................ [attached] flag in [server_client_eof]
      Manager.handle_message (BELOW: "forward all other messages up") . [mgr_from_below]
-     Worker.recv_incoming (SHUTDOWN / lost connection => SIGKILL self)  [worker_die]
+     Worker.recv_incoming (SHUTDOWN / lost connection => SIGKILL self)  [worker_from_above]
+     Manager.handle_disconnect (lost boss => handle_shutdown) .. [mgr_from_above]
      DetachedServer.handle_new_comp_task/handle_request/handle_status/handle_result . [srv_*]
      Compiler._send/_send_recv/_recv_handle_log_error/_recv_log_error_until_empty . [call], [crecv], [cdrain]
    Ordinary traffic (SUBMIT_BATCH, WAITING, UPDATE, LOG, CANCEL, worker-to-worker
@@ -280,7 +281,9 @@ Definition recv_up (c : nat) (s : state) : option state :=
 (* ---- receiving from above (FIFO down c, reader c) -------------------------------------- *)
 Definition mgr_from_above (c : nat) (m : option msg) (s : state) : state :=
   match m with
-  | None => set_cend s (upd (cend s) c false)    (* handle_disconnect(upstream): unregister + close, NOT a shutdown *)
+  | None =>       (* Manager.handle_disconnect(upstream): unregister + close, then - the boss is lost - handle_shutdown
+                     (repo commit ddab951; before it the manager only closed the connection and kept running) *)
+    shutdown c (set_cend s (upd (cend s) c false))
   | Some MShutdown => shutdown c s
   | Some _ => s
   end.
@@ -467,11 +470,5 @@ Definition wlink (s : state) (c : nat) : nat :=
   (2 + c) * length (upq s c) + length (downq s c)
   + (if pend s c then 3 else 0) + (if cend s c then 2 * (2 + c) else 0).
 Definition variant (s : state) : nat := sumn N (wlink s) + (2 + N) * budget s.
-
-(* only crashes of workers and of managers that manage workers (level-1 managers) *)
-Definition good_crash (n : nat) : bool :=
-  all_below N (fun c => negb (is_child n c && match kindof c with KManager => true | _ => false end)).
-Definition good_event (e : event) : bool :=
-  match e with ECrash n => good_crash n | _ => true end.
 
 End Model.
